@@ -182,6 +182,10 @@ func Supervise(o SupOpts) int {
 				trouble = append(trouble, fmt.Sprintf("worker %d killed by the overall timeout", w.k))
 				continue
 			}
+			if ee, ok := w.exitErr.(*exec.ExitError); ok && ee.ExitCode() == 3 {
+				trouble = append(trouble, fmt.Sprintf("worker %d: harness panic at run %d (simulator bug, not a violation):\n%s", w.k, w.lastRun, tail(w.stderr.String(), 1500)))
+				continue
+			}
 			if w.lastRun < 0 {
 				trouble = append(trouble, fmt.Sprintf("worker %d died before its first run: %v\n%s", w.k, w.exitErr, w.stderr.String()))
 				continue
@@ -284,31 +288,31 @@ func Supervise(o SupOpts) int {
 		evals = total.Steps
 	}
 	cov := map[string]interface{}{
-		"evaluations":         evals,
-		"distinct_nontrivial": len(nt),
-		"rule":                info.Rule,
-		"samples":             samples,
-		"runs":                total.Runs,
-		"runs_requested":      o.Runs,
-		"runs_per_hour":       int64(float64(total.Runs) / wall * 3600),
-		"seeds":               map[string]interface{}{"base_seed": o.Base, "derivation": "run seed = splitmix64(base, property, run index); one PCG stream per run", "first_run": first, "last_run": last},
-		"sim_steps":           total.Steps,
-		"sim_events_logged":   total.Events,
-		"simulated_time":      info.TimeStatement,
-		"faults_fired":        total.Faults,
-		"fault_kinds":         info.FaultKinds,
-		"strategies":          total.Strategies,
-		"distinct_schedules":  map[string]interface{}{"count": len(sc), "measure": info.SchedMeasure},
-		"distinct_states":     map[string]interface{}{"count": len(st), "measure": info.StateMeasure},
-		"probes":              total.Probes,
+		"evaluations":                     evals,
+		"distinct_nontrivial":             len(nt),
+		"rule":                            info.Rule,
+		"samples":                         samples,
+		"runs":                            total.Runs,
+		"runs_requested":                  o.Runs,
+		"runs_per_hour":                   int64(float64(total.Runs) / wall * 3600),
+		"seeds":                           map[string]interface{}{"base_seed": o.Base, "derivation": "run seed = splitmix64(base, property, run index); one PCG stream per run", "first_run": first, "last_run": last},
+		"sim_steps":                       total.Steps,
+		"sim_events_logged":               total.Events,
+		"simulated_time":                  info.TimeStatement,
+		"faults_fired":                    total.Faults,
+		"fault_kinds":                     info.FaultKinds,
+		"strategies":                      total.Strategies,
+		"distinct_schedules":              map[string]interface{}{"count": len(sc), "measure": info.SchedMeasure},
+		"distinct_states":                 map[string]interface{}{"count": len(st), "measure": info.StateMeasure},
+		"probes":                          total.Probes,
 		"runs_aborted_for_other_property": total.Aborted,
-		"real_components":     info.Real,
-		"stub_components":     info.Stubs,
-		"known_findings_seen": total.Known,
-		"workers":             o.Workers,
-		"worker_stop_reasons": stopped,
-		"hash_sets_capped":    total.Capped,
-		"exhaustive":          false,
+		"real_components":                 info.Real,
+		"stub_components":                 info.Stubs,
+		"known_findings_seen":             total.Known,
+		"workers":                         o.Workers,
+		"worker_stop_reasons":             stopped,
+		"hash_sets_capped":                total.Capped,
+		"exhaustive":                      false,
 	}
 	if first == ^uint64(0) {
 		cov["seeds"].(map[string]interface{})["first_run"] = nil
